@@ -38,7 +38,9 @@ THEOREMS = {
     "C12": [("XV.Lines.getLines_file_eq_string", "XonshVerif.Properties.C12"), ("XV.Lines.scanFile_spec", "XonshVerif.Properties.C12")],
     "C14": [("XV.Tz.tokens_after_neutral_prefix", "XonshVerif.Properties.C14"), ("XV.Tz.tokenize_append", "XonshVerif.Properties.C14"), ("XV.Tz.neutral_prefix_lines", "XonshVerif.Properties.C14"),
             ("XV.Tz.tokenizeLines_sh", "XonshVerif.Proofs.TokCompose"), ("XV.Tz.tokenizeLines_append", "XonshVerif.Proofs.TokCompose")],
-    "C15": [("XV.Peg.parse_verbose", "XonshVerif.Properties.C15"), ("XV.Peg.execRule_verbose", "XonshVerif.Properties.C15"), ("XV.Peg.vinv", "XonshVerif.Proofs.PegVerbose")],
+    "C15": [("XV.Peg.py_version_monotone", "XonshVerif.Properties.C15"), ("XV.Peg.py_version_irrelevant_above_all_gates", "XonshVerif.Properties.C15"),
+            ("XV.Peg.parse_gate_mono", "XonshVerif.Proofs.PegGate"), ("XV.Peg.ginv_all", "XonshVerif.Proofs.PegGate"),
+            ("XV.Peg.parse_verbose", "XonshVerif.Properties.C15"), ("XV.Peg.execRule_verbose", "XonshVerif.Properties.C15"), ("XV.Peg.vinv", "XonshVerif.Proofs.PegVerbose")],
     "C17": [("XV.Peg.lookahead_consumes_nothing", "XonshVerif.Properties.C17"), ("XV.Peg.not_is_complement", "XonshVerif.Properties.C17"), ("XV.Peg.ordered_choice_first", "XonshVerif.Properties.C17"),
             ("XV.Peg.ordered_choice_next", "XonshVerif.Properties.C17"), ("XV.Peg.empty_choice_fails", "XonshVerif.Properties.C17"), ("XV.Peg.memo_hit_is_constant", _PC)],
     "C18": [("XV.Peg.no_multi_edge_on_cycle", _PC), ("XV.Peg.memo_hit_is_constant", _PC)],
@@ -181,6 +183,7 @@ CERTS = {
     "C18": [("XVC.ir_complete", _B), ("XVC.cycle_cert", _CO), ("XVC.memo_mask_correct", _CO), ("XVC.memoised_rules_expected", _CO), ("XVC.shipped_no_multi_edge_on_cycle", _CO)],
     "C04": [("XVC.ir_complete", _B), ("XVC.no_nullable_required_field", _AC), ("XVC.action_fields_nonempty", _AC), ("XVC.shipped_actions_all_ok", _AC), ("XVC.shipped_required_fields_never_none", _AC)],
     "C13": [("XVC.state_inventory_expected", _AC)],
+    "C15": [("XVC.ir_complete", _B), ("XVC.shipped_version_gates", "XonshCerts.Total"), ("XVC.shipped_py_version_irrelevant_from_312", "XonshCerts.Total")],
     "C16": [("XVC.regenerated_ir_equals_shipped", "XonshCerts.Regen"), ("XVC.regenerated_ir_nonempty", "XonshCerts.Regen"), ("XVC.regenerated_xonsh_alternatives_inert", "XonshCerts.Regen")],
     "C07": [("XVC.ir_complete", _B)],
     "C11": [("XVC.ir_complete", _B)],
@@ -272,6 +275,31 @@ def corr_peg(pid, n_quick=250, n_thorough=6000, verbose=False, **kw):
             rep.extra.setdefault("correspondence_disagreements", []).append(b)
 
     return run
+
+
+GATED_SOURCES = [
+    "type X = int\n", "type X[T] = list[T]\n", "def f[T](a): pass\n", "class B[T]: pass\n", "class B[T, *Ts, **P](A): pass\n",
+    "try:\n    pass\nexcept* E:\n    pass\n", "try:\n    pass\nexcept* (A, B) as e:\n    pass\nelse:\n    pass\nfinally:\n    pass\n",
+    "x = 1\ntype Y[T] = T\ny = 2\n", "async def g[T](): pass\n", "try:\n    pass\nexcept* E:\n    pass\ntype X = int\n",
+    "def f[T](a): pass\ntry:\n    pass\nexcept* E:\n    pass\n", "type X = \n", "def f[T(a): pass\n", "type X = int\n)\n", "def f[T] x\n",
+    "class A[T] | grep\n", "type = 3\n", "type(x)\n", "try:\n    pass\nexcept E:\n    pass\n", "x = [T]\n", "def f(a): pass\n",
+]
+GATE_VERSIONS = [None, (3, 8), (3, 10), (3, 11), (3, 12), (3, 13), (3,), (4, 0), (3, 11, 9), (3, 12, 0)]
+
+
+def corr_gate(rep, tier):
+    """C15 py_version half: model with `gateProg v` vs the implementation run with the corresponding `py_version`."""
+    from harness import corr
+
+    srcs = list(GATED_SOURCES)
+    if tier != "quick":
+        srcs += _peg_sources("C15", tier, 300)[:600]
+    else:
+        srcs += _peg_sources("C15", tier, 20, damaged=False)[:60]
+    cases = corr.peg_cases(srcs, versions=GATE_VERSIONS)
+    bad = corr.run_peg_correspondence(rep, cases, name="recogniser-IR with version gates resolved (py_version grid)")
+    for b in bad[:3]:
+        rep.extra.setdefault("correspondence_disagreements", []).append(b)
 
 
 def corr_tok(pid):
@@ -381,7 +409,7 @@ CORR = {
     "C05": [corr_peg("C05")],
     "C03": [corr_peg("C03"), corr_tok("C03"), corr_pipeline("C03")],
     "C18": [corr_peg("C18")],
-    "C15": [corr_peg("C15", n_quick=150, n_thorough=3000), corr_peg("C15", n_quick=150, n_thorough=3000, verbose=True)],
+    "C15": [corr_peg("C15", n_quick=150, n_thorough=3000), corr_peg("C15", n_quick=150, n_thorough=3000, verbose=True), corr_gate],
     "C08": [corr_tok("C08")],
     "C09": [corr_tok("C09")],
     "C10": [corr_tok("C10")],
